@@ -507,6 +507,10 @@ def requery_cases(draw, tier):
     return case
 
 
+# (what round 8 added to the case domain; part of the evidence text)
+RULE_ROUND8 = ' One generated forest in 20 (60 in the thorough tier) is a BIG one (gen.big_specs: a child list of 11..300 nodes, that many clones of one data object, more than 256 nodes), with node references aimed at notable positions of the long child lists. (width <= 130). Control signals also as instances of application-defined subclasses of SkipBranch / StopTraversal, returned and raised.'
+RULE = RULE + RULE_ROUND8
+
 PARTS = [
     Part("exhaustive", run, enum=enum_cases),
     Part("random-deep-wide", run, strategy=lambda tier: hyp_cases(tier), n={"quick": 100, "thorough": 20000}),
